@@ -1,7 +1,9 @@
 package distributed
 
 import (
+	"github.com/golang/protobuf/proto"
 	"github.com/vx-labs/mqtt-protocol/packet"
+	"github.com/vx-labs/wasp/v4/wasp/api"
 	rt "github.com/vx-labs/wasp/v4/zzsymxrt"
 )
 
@@ -151,4 +153,115 @@ func symxC20State() {
 		v := A.view()
 		rt.Assert(v.ret[0] == "c1" && v.ret[1] == "c4", "C20.state.local_retained_and_merged_one_both_listed")
 	}
+}
+
+// symxC09Bulk: bulk changes over many entries. The node owns a solver-chosen number of sessions (or
+// of subscriptions, one per session) with UUID-sized identifiers - enough for the encoded bulk
+// event to pass any size a broadcast might be cut at - and removes them all at once (DeletePeer, as
+// when it shuts down); the peer that heard every broadcast must list exactly what the origin lists.
+func symxC09Bulk() {
+	max := rt.Param("entries", 20)
+	symxInstallClock()
+	symxNow = 10
+	A, B := symxNewNode(1), symxNewNode(2)
+	n := int(rt.Int("entries_owned_by_the_peer", 0, int64(max)))
+	table := rt.Int("table", 0, 1)
+	id := func(k int) string {
+		return "3f2b8c1e-7a54-4d09-9e61-0000000000" + string([]byte{byte('a' + k/26), byte('a' + k%26)})
+	}
+	deliver := func() int {
+		payloads := rt.Drain(A.q)
+		for _, p := range payloads {
+			B.st.NotifyMsg(p)
+		}
+		return len(payloads)
+	}
+	for k := 0; k < n; k++ {
+		symxNow++
+		if table == 0 {
+			A.st.SessionMetadatas().Create(id(k), "client-of-"+id(k), symxNow, nil, "m")
+		} else {
+			A.st.Subscriptions().Create(id(k), []byte("m/sensors/+/temperature"), 1)
+		}
+		deliver()
+	}
+	// one entry of another node, which must survive
+	symxNow++
+	B.st.SessionMetadatas().Create("other", "oc", symxNow, nil, "m")
+	B.st.Subscriptions().Create("other", []byte("m/a"), 0)
+	for _, p := range rt.Drain(B.q) {
+		A.st.NotifyMsg(p)
+	}
+	same := func(label string) {
+		as, bs := A.st.SessionMetadatas().All(), B.st.SessionMetadatas().All()
+		rt.Assert(len(as) == len(bs), label)
+		for _, x := range as {
+			found := false
+			for _, y := range bs {
+				if x.SessionID == y.SessionID {
+					found = true
+				}
+			}
+			rt.Assert(found, label)
+		}
+		au, bu := A.st.Subscriptions().All(), B.st.Subscriptions().All()
+		rt.Assert(len(au) == len(bu), label)
+		for _, x := range au {
+			found := false
+			for _, y := range bu {
+				if x.SessionID == y.SessionID && string(x.Pattern) == string(y.Pattern) {
+					found = true
+				}
+			}
+			rt.Assert(found, label)
+		}
+	}
+	same("C09.bulk.peer_lists_the_same_before_the_removal")
+	if table == 0 {
+		rt.Assert(len(A.st.SessionMetadatas().All()) == n+1, "C09.bulk.all_entries_listed")
+	} else {
+		rt.Assert(len(A.st.Subscriptions().All()) == n+1, "C09.bulk.all_entries_listed")
+	}
+	symxNow += 10
+	if table == 0 {
+		A.st.SessionMetadatas().DeletePeer(1)
+	} else {
+		A.st.Subscriptions().DeletePeer(1)
+	}
+	sent := deliver()
+	rt.Assert(n == 0 || sent >= 1, "C09.visible_change_is_broadcast")
+	same("C09.bulk.peer_lists_the_same_after_the_removal")
+	rt.Assert(len(A.st.SessionMetadatas().All()) == 1 && len(A.st.Subscriptions().All()) == 1, "C09.bulk.only_the_other_nodes_entry_is_left")
+	rt.Cover(n == max, "C09.bulk.largest_table")
+}
+
+// symxC09SizeModel validates the engine's model of proto.Size (used by symxC09Bulk to see encoded
+// sizes) against the real library: the size of a bulk event with solver-chosen timestamps, peer,
+// QoS, will and entry count is observed, and every explored witness is re-run natively, where the
+// observation comes from the real golang/protobuf.
+func symxC09SizeModel() {
+	la, ld := rt.Int("last_added", 0, 1<<40), rt.Int("last_deleted", -5, 300)
+	peer := uint64(rt.Int("peer", 0, 1<<62))
+	n := int(rt.Int("entries", 0, 3))
+	ev := &api.StateBroadcastEvent{}
+	for k := 0; k < n; k++ {
+		m := &api.SessionMetadatas{SessionID: "3f2b8c1e-7a54-4d09-9e61-00000000000" + string([]byte{byte('a' + k)}), ClientID: "c", Peer: peer, LastAdded: la, LastDeleted: ld, MountPoint: "m"}
+		if k == 1 {
+			m.LWT = &packet.Publish{Header: &packet.Header{Qos: int32(rt.Int("will_qos", 0, 2)), Retain: rt.Bool("will_retain")}, Topic: []byte("w"), Payload: make([]byte, 130)}
+		}
+		ev.SessionMetadatas = append(ev.SessionMetadatas, m)
+	}
+	if rt.Bool("with_subscription") {
+		ev.Subscriptions = append(ev.Subscriptions, &api.Subscription{SessionID: "s", Pattern: []byte("m/a"), QoS: int32(rt.Int("sub_qos", 0, 2)), Peer: peer, LastAdded: la})
+	}
+	size := proto.Size(ev)
+	steps := 0
+	for _, x := range []int{0, 60, 64, 70, 130, 200, 260, 330, 400} {
+		if size > x {
+			steps++
+		}
+	}
+	rt.Observe("size", size, steps)
+	rt.Assert(size >= 0, "C09.size_model.defined")
+	rt.Cover(size > 330, "C09.size_model.large_event")
 }
